@@ -498,6 +498,78 @@ def v6_v7(prog: Program, chk: Check) -> None:
             "" if ok1 and ok2 else "the last operator / its times are not the ones read out")
 
 
+# --------------------------------------------------------------------- V8
+def v8(prog: Program, chk: Check) -> None:
+    chk.rule("V8", "each schedule entry is computed from that entry alone: no working value "
+             "handed to _compute_ordered_nt_correlations, and no write-back index, carries a "
+             "definition over from an earlier iteration of the schedule loop (a mask applied to "
+             "one entry must not narrow the following ones)", floor=3)
+    view = NtView(prog)
+    u, du = view.u, view.du
+    g = du.cfg
+    loops = [n for n in g.nodes if n.kind == "iter" and not n.copy_of
+             and any(isinstance(y, ast.Name) and y.id == view.schedule for y in ast.walk(n.ast.iter))]
+    if len(loops) != 1:
+        raise AnalysisError("V8: the loop over the schedule was not found")
+    head = loops[0].id
+    body = g.reachable([b for b, l in g.succ[head] if l == "it"],
+                       edge_ok=lambda a, b, l: b != head)
+    body = {n for n in body if g.find_path([n], lambda x: x == head) is not None}
+    call_node = du.node_of(view.inner_call)
+    uses: List[Tuple[int, ast.AST, str]] = []
+    for k in view.inner_call.keywords:
+        if k.arg in ("first_times", "last_times"):
+            uses.append((call_node, k.value, f"{k.arg}="))
+    for n in g.nodes:
+        if n.id in body and n.kind == "stmt" and isinstance(n.ast, ast.Assign):
+            for t in n.ast.targets:
+                if isinstance(t, ast.Subscript) and dotted(t.value) == view.ret_corr:
+                    uses.append((n.id, t.slice, "write-back index "))
+    if len(uses) < 3:
+        raise AnalysisError("V8: the per-entry working values were not identified")
+
+    def carried(name: str, at: int, seen=None) -> Optional[str]:
+        """A definition of `name` made in one iteration (or before the loop and then updated in
+        it) that is still in force at `at` in a later iteration."""
+        seen = seen or set()
+        if (name, at) in seen:
+            return None
+        seen.add((name, at))
+        defs_in_body = [d for d in du.defs if d.name == name and d.node in body]
+        if not defs_in_body:
+            return None                       # loop invariant
+        kill = {d.node for d in du.defs if d.name == name}
+        for d in defs_in_body:
+            # d.node -> ... back edge ... -> head -> ... -> at, without another definition
+            p = g.find_path([b for b, _ in g.succ[d.node] if b not in kill or b == head],
+                            lambda x: x == head, blocked=lambda x: x in kill and x != head)
+            if p is None:
+                continue
+            q = g.find_path([b for b, l in g.succ[head] if l == "it" and (b not in kill or b == at)],
+                            lambda x: x == at, blocked=lambda x: x in kill and x != at)
+            if q is not None:
+                return f"`{view.canon(d.stmt) if d.stmt is not None else name}` " \
+                       f"(line {g.nodes[d.node].lineno}) is still in force in the next iteration"
+        # values the definitions are computed from
+        for d in du.reaching(at, name):
+            if d.value is None or d.node not in body:
+                continue
+            for y in ast.walk(d.value):
+                if isinstance(y, ast.Name) and isinstance(y.ctx, ast.Load) and y.id != name:
+                    r = carried(y.id, d.node, seen)
+                    if r:
+                        return r
+        return None
+    for (at, e, label) in uses:
+        why = None
+        for y in ast.walk(e):
+            if isinstance(y, ast.Name) and isinstance(y.ctx, ast.Load):
+                why = why or carried(y.id, at)
+        chk.add("V8", u, f"{label}{view.canon(e)}", why is None,
+                "derived from the current schedule entry" if why is None else
+                f"loop-carried: {why}; entries computed after a narrowing one silently stay NaN", e)
+
+
 def run(prog: Program, chk: Check) -> None:
     chk.explanation = (
         "Decides the alignment bookkeeping of compute_correlations(_nt): V1 the time step that "
@@ -511,9 +583,10 @@ def run(prog: Program, chk: Check) -> None:
     chk.assumptions = ["Python slice semantics: a negative stop counts from the end",
                        "numpy boolean-mask indexing keeps positions; np.arange(a, b, -1) "
                        "treats b = -1 literally"]
-    v1(prog, chk)
-    v2(prog, chk)
-    v3(prog, chk)
-    v4(prog, chk)
-    v5(prog, chk)
-    v6_v7(prog, chk)
+    chk.call(v1, prog, chk)
+    chk.call(v2, prog, chk)
+    chk.call(v3, prog, chk)
+    chk.call(v4, prog, chk)
+    chk.call(v5, prog, chk)
+    chk.call(v6_v7, prog, chk)
+    chk.call(v8, prog, chk)
